@@ -112,6 +112,19 @@ Theorem stamp_is_conductance : forall (g : K) (v : cnode -> K),
   row_sum stamp_A g v N2 = 0.
 Proof. intros. cbn. repeat split; ring. Qed.
 
+(* ---- the matrix path of Simulator._step (any circuit) -------------------------------------------- *)
+(* the entry list regenerated from SimulatedComponent.stamp is the conductance stamp, so in the system
+   assembled at step k every reactive component adds exactly the current g_k (x(i1) - x(i3)) to the rows of
+   its first node and of its dummy node, with g_k = geq(dt_k) of THAT step *)
+Theorem stamp_A_is_std : stamp_A = std_stamp.
+Proof. reflexivity. Qed.
+Theorem sim_stamped_row : forall (idx : list Z) (A : Z -> Z -> K) (c : rcomp K) (x : Z -> K) (r : Z),
+  NoDup idx -> In (rc_i1 K c) idx -> In (rc_i3 K c) idx -> (0 <= rc_i1 K c)%Z -> (0 <= rc_i3 K c)%Z -> rc_i1 K c <> rc_i3 K c ->
+  rowdot idx (stamped A stamp_A [c]) x r =
+  rowdot idx A x r + (if Z.eqb r (rc_i1 K c) then rc_g K c * (x (rc_i1 K c) - x (rc_i3 K c))
+                      else if Z.eqb r (rc_i3 K c) then rc_g K c * (x (rc_i3 K c) - x (rc_i1 K c)) else 0).
+Proof. rewrite stamp_A_is_std. apply stamped_row. Qed.
+
 (* ---- generalized bilinear substitution ---------------------------------------- *)
 Theorem gbt_integrator : forall alpha dt zi : K, dt <> 0 -> 1 - zi <> 0 -> alpha + (1 - alpha) * zi <> 0 ->
   1 / gbt_s alpha dt zi = dt * (alpha + (1 - alpha) * zi) / (1 - zi).
@@ -137,6 +150,8 @@ Print Assumptions pade11_consistent.
 Print Assumptions rmodel_C_relation.
 Print Assumptions rmodel_L_relation.
 Print Assumptions stamp_is_conductance.
+Print Assumptions stamp_A_is_std.
+Print Assumptions sim_stamped_row.
 Print Assumptions gbt_integrator.
 Print Assumptions gbt_bilinear.
 Print Assumptions gbt_rule_affine_defect.
